@@ -322,3 +322,11 @@ Example C01_driver_nonvacuous :
   length id9 = 9%nat /\ valid_snapshot 2 snap_ex /\ (0 : R) <> 1 /\ 0 < 1 / 1000
   /\ steps_ok 2 (map Ok ([[]] ++ [@y_start NumR id9 snap_ex])).
 Proof. exact driver_nonvacuous_proof. Qed.
+
+(* the history invariant for whole assemblages advanced by any number of update_all calls: every stored snapshot of
+   every mineral is a valid texture *)
+Theorem C01_assemblage_history_invariant : forall n chi (yss : list (list (list R))) (hs : list (@history NumR)),
+  (0 < n)%nat -> 0 <= chi -> Forall (hist_inv n) hs ->
+  Forall (fun ys => length ys = length hs /\ Forall (fun y => step_ok n (Ok y)) ys) yss ->
+  Forall (hist_inv n) (bulk_run n chi hs yss).
+Proof. exact bulk_run_invariant. Qed.
